@@ -339,8 +339,11 @@ impl SimdMemOps {
         }
 
         // Use cache-aligned copy if beneficial
-        let src_aligned = (src.as_ptr() as usize) % self.cache_config.cache_line_size == 0;
-        let dst_aligned = (dst.as_mut_ptr() as usize) % self.cache_config.cache_line_size == 0;
+        // copy_aligned insists on CACHE_LINE_SIZE (64-byte) alignment whatever line size is configured
+        let line = self.cache_config.cache_line_size;
+        let is_aligned = |addr: usize| addr % line == 0 && addr % CACHE_LINE_SIZE == 0;
+        let src_aligned = is_aligned(src.as_ptr() as usize);
+        let dst_aligned = is_aligned(dst.as_mut_ptr() as usize);
 
         if src_aligned && dst_aligned && src.len() >= self.cache_config.cache_line_size {
             self.copy_aligned(src, dst)
